@@ -479,8 +479,7 @@ def check_render(case, driver_lineages):
             tr.stopped = True
             tr.rendered = graph
             if case["real_dot"]:
-                return orig_render(graph, style, **kw)
-            # evaluate the style on every node and edge as nxv would (the style lambdas read the registry)
+                return orig_render(graph, style, **kw)      # the real nxv + GraphViz (evaluates the registry-reading styles)
             return b""
         nxv.render = fake
         try:
